@@ -30,6 +30,14 @@ Section AMap.
     end.
 End AMap.
 
+(* append v to the list of key k, creating the list when the key is new
+   (the "if list already exists ... append, else create" of the parsers) *)
+Definition group_add {V} (k : bytes) (v : V) (m : list (bytes * list V)) : list (bytes * list V) :=
+  match alookup k m with
+  | Some l => aset k (l ++ [v]) m
+  | None => aset k [v] m
+  end.
+
 (* ---------- hex.EncodeToString ---------- *)
 Definition hex_digit (d : N) : N := if d <? 10 then 48 + d else 87 + d.   (* '0'.. / 'a'.. *)
 Definition hex_encode (b : bytes) : bytes :=
@@ -177,12 +185,7 @@ Fixpoint sst_group (parse_cert : bytes -> option (bytes * Z)) (certs : list byte
   | c :: r =>
       match parse_cert c with
       | None => None                                   (* parse error returned (repaired) *)
-      | Some (issuer, serial) =>
-          let m' := match alookup issuer m with
-                    | Some l => aset issuer (l ++ [serial]) m
-                    | None => aset issuer [serial] m
-                    end in
-          sst_group parse_cert r m'
+      | Some (issuer, serial) => sst_group parse_cert r (group_add issuer serial m)
       end
   end.
 
@@ -239,12 +242,7 @@ Fixpoint onecrl_build (es : list oentry) (c : onecrl) : onecrl :=
   | OBlocked s p :: r =>
       onecrl_build r {| oc_blocked := oc_blocked c ++ [(s, p)]; oc_issuers := oc_issuers c |}
   | OListed iss ser :: r =>
-      let m := oc_issuers c in
-      let m' := match alookup iss m with
-                | Some l => aset iss (l ++ [ser]) m
-                | None => aset iss [ser] m
-                end in
-      onecrl_build r {| oc_blocked := oc_blocked c; oc_issuers := m' |}
+      onecrl_build r {| oc_blocked := oc_blocked c; oc_issuers := group_add iss ser (oc_issuers c) |}
   end.
 
 Fixpoint decode_records (rs : list orec) : option (list oentry) :=
@@ -343,16 +341,17 @@ Inductive case :=
 (* input, JSON decoding of the header slice (None: no slice or JSON error),
    observed set, queries (serial, issuer hash string, observed Check) *)
 | CCrlSet (input : bspec) (json : option (Z * Z * list bytes)) (obs : option crlset_obs)
-          (queries : list (Z * bytes * option Z))
+          (queries : list (bytes * list (Z * option Z)))
 (* blob table, chunks of the input, parse results of every blob the input contains,
    observed map (key-sorted), queries (issuer, serial, observed Check) *)
 | CSst (blobs : list bytes) (input : list chunk) (parsed : list (nat * option (bytes * Z)))
        (extra : cert_table)
-       (obs : option (list (bytes * list Z))) (queries : list (bytes * Z * option Z))
+       (obs : option (list (bytes * list Z))) (queries : list (bytes * list (Z * option Z)))
 (* records, observed blocked list and issuer map, queries *)
 | COneCrl (recs : list (bool * bool * option bytes * option bytes * N * option bytes))
           (obs : option (list (bytes * bytes) * list (bytes * list N)))
-          (queries : list (bytes * bytes * bytes * Z * ocheck))
+          (subjects hashes issuers : list bytes)
+          (queries : list (nat * nat * nat * Z * ocheck))
 | CHex (b : bytes) (obs : bytes).
 
 Definition mk_orec (t : bool * bool * option bytes * option bytes * N * option bytes) : orec :=
@@ -371,7 +370,7 @@ Definition check_case (c : case) : bool :=
       | None, None => match queries with [] => true | _ => false end
       | Some s, Some o =>
           crlset_eqb s o &&
-          forallb (fun q => let '(serial, ih, r) := q in option_eqb Z.eqb (check_crlset s serial ih) r) queries
+          forallb (fun q => forallb (fun sr => option_eqb Z.eqb (check_crlset s (fst sr) (fst q)) (snd sr)) (snd q)) queries
       | _, _ => false
       end
   | CSst blobs input parsed extra obs queries =>
@@ -388,17 +387,17 @@ Definition check_case (c : case) : bool :=
       | None, None => match queries with [] => true | _ => false end
       | Some m, Some o =>
           amap_eqb (list_eqb Z.eqb) m o &&
-          forallb (fun q => let '(iss, serial, r) := q in option_eqb Z.eqb (check_listed m iss serial) r) queries
+          forallb (fun q => forallb (fun sr => option_eqb Z.eqb (check_listed m (fst q) (fst sr)) (snd sr)) (snd q)) queries
       | _, _ => false
       end
-  | COneCrl recs obs queries =>
+  | COneCrl recs obs subjects hashes issuers queries =>
       match parse_onecrl (map mk_orec recs), obs with
       | None, None => match queries with [] => true | _ => false end
       | Some c, Some (bl, iss) =>
           list_eqb (prod_eqb bytes_eqb bytes_eqb) (oc_blocked c) bl &&
           amap_eqb (list_eqb N.eqb) (oc_issuers c) iss &&
-          forallb (fun q => let '(rs, kh, issuer, serial, r) := q in
-                            ocheck_eqb (check_onecrl c rs kh issuer serial) r) queries
+          forallb (fun q => let '(si, ki, ii, serial, r) := q in
+                            ocheck_eqb (check_onecrl c (nth si subjects []) (nth ki hashes []) (nth ii issuers []) serial) r) queries
       | _, _ => false
       end
   | CHex b obs => bytes_eqb (hex_encode b) obs
